@@ -169,24 +169,24 @@ def frame_class(a, raw):
     if f is None:
         return "short", "short-frame"
     (frm, to, fid, typ, res), msg = f
+    bad = []
+    if not ref_valid(to):
+        bad.append("dst-" + addr_shape(to))
     if not ref_valid(frm):
-        oc = "origin-" + addr_shape(frm)
-    else:
-        oc = None
+        bad.append("origin-" + addr_shape(frm))
+    if bad:
+        return "invalid", ",".join(bad)  # the shape of an invalid frame is what makes it invalid
     if to == a:
         dc = "self/%s/%s" % (type_class(typ), content_class(typ, msg))
     elif to == MC:
         dc = "mcast/%s" % type_class(typ)
-    elif not ref_valid(to):
-        dc = "dst-" + addr_shape(to)
     elif to in RESERVED_MC:
         dc = "dst-reserved-mc"
     elif to == DEFAULT:
         dc = "dst-default-addr"
     else:
         dc = "dst-" + R.relation(a, to) if R.is_valid(a) else "dst-other"
-    valid = ref_valid(frm) and ref_valid(to)
-    return ("valid" if valid else "invalid"), (dc if oc is None else dc + "," + oc)
+    return "valid", dc
 
 
 def role_tag(role, lvl):
@@ -225,17 +225,24 @@ def run_case(pack, role, lvl, payloads, mode="each"):
         q0 = len(n.queue)
         mark = len(w.airlog)
         t0 = w.now
-        cls = "+".join(classes[i][1] for i in idx_list)
+        pending0 = len(r.rx_fifo)
+        cls = "+".join(sorted({classes[i][1] for i in idx_list}))
+
+        def culprit():
+            # the frame being handled when update() was left: the last one popped from the RX FIFO
+            k = pending0 - len(r.rx_fifo) - 1
+            return classes[idx_list[k]][1] if 0 <= k < len(idx_list) else cls
+
         try:
             n.update()
             res = "ok"
         except Abort:
-            v("not-terminating", cls, "update() still running after %d ms of virtual time" % ((w.now - t0) // MS))
+            v("not-terminating", culprit(), "update() still running after %d ms of virtual time" % ((w.now - t0) // MS))
             return "hang"
         except HarnessError:
             raise
         except Exception as e:  # noqa
-            v(exc_name(e), cls, "update() raised %s: %s on payload %s" % (exc_name(e), e, " + ".join(payloads[i].hex() for i in idx_list)))
+            v(exc_name(e), culprit(), "update() raised %s: %s on payload %s" % (exc_name(e), e, " + ".join(payloads[i].hex() for i in idx_list)))
             res = "exc:" + exc_name(e)
         dt = w.now - t0
         if dt > time_bound_ns(n, len(idx_list)):
@@ -244,11 +251,23 @@ def run_case(pack, role, lvl, payloads, mode="each"):
         queued = len(n.queue) - q0
         if all(classes[i][0] != "valid" for i in idx_list):
             kind = "short" if all(classes[i][0] == "short" for i in idx_list) else "invalid"
+
+            def blame(raw):
+                # which injected payload does this transmitted / queued frame stem from? (same destination and frame id)
+                h = NW.unpack_header(raw)
+                for i in idx_list:
+                    hi = NW.unpack_header(payloads[i])
+                    if h is not None and hi is not None and (h[1], h[2]) == (hi[1], hi[2]):
+                        return classes[i][1]
+                return cls
+
             if sent:
-                v("%s-frame-transmitted" % kind, cls, "node reacted to %s by transmitting %d packet(s), first %s to %s"
+                v("%s-frame-transmitted" % kind, blame(sent[0].payload), "node reacted to %s by transmitting %d packet(s), first %s to %s"
                   % (" + ".join(payloads[i].hex() for i in idx_list), len(sent), sent[0].payload.hex(), sent[0].addr.hex()), with_level=False)
-            if queued:
-                v("%s-frame-queued" % kind, cls, "node queued %d frame(s) for %s" % (queued, " + ".join(payloads[i].hex() for i in idx_list)), with_level=False)
+            if queued > 0:
+                qf = n.queue.peek()
+                v("%s-frame-queued" % kind, blame(qf.pack()) if qf is not None else cls,
+                  "node queued %d frame(s) for %s" % (queued, " + ".join(payloads[i].hex() for i in idx_list)), with_level=False)
         return "%s:%s%s" % (res, "tx" if sent else "-", "+q" if queued > 0 else "")
 
     if mode == "batch":
@@ -256,9 +275,8 @@ def run_case(pack, role, lvl, payloads, mode="each"):
             phys, noack = phys_for(a, p)
             if not H.inject(w, g, phys, p, noack=noack):
                 raise HarnessError("injected payload was not received by the node's radio")
-        outs.append(one_update(list(range(len(payloads)))))
-        if r.rx_fifo and not viol:
-            outs.append(one_update(list(range(len(payloads)))))
+        while r.rx_fifo and not viol and len(outs) <= len(payloads):
+            outs.append(one_update(list(range(len(payloads) - len(r.rx_fifo), len(payloads)))))
     else:
         for i, p in enumerate(payloads):
             phys, noack = phys_for(a, p)
@@ -361,7 +379,7 @@ def seq_alphabet(a, tier, seed):
     lvl = R.level(a)
     dc = dest_classes(a)
     al = []
-    child = dc.get("child", dc["parent-side"] or [0o1])[0]
+    child = (dc.get("child") or dc.get("parent-side") or [0o1])[0]
     org = 0o3 if a != 0o3 else 0o4
     for t, res, n in ((0, 0, 3), (65, 0, 24), (130, 0, 0), (128, 9, 2), (131, 0, 4), (193, 0, 0), (194, 0, 0), (195, 9, 0),
                       (196, 0, 1), (197, 0, 0), (198, 0, 2), (148, 3, 24), (148, 2, 24), (149, 2, 24), (150, 65, 5), (150, 131, 5), (150, 0, 0)):
